@@ -192,6 +192,18 @@ func (e *UWrapFmtOld) Format(s fmt.State, verb rune) {
 	}
 }
 
+// UWrapKeyMarker: unregistered message-less wrapper whose type
+// identity is extended by a per-value marker (errbase.TypeKeyMarker),
+// like the library's own domain wrapper.
+type UWrapKeyMarker struct {
+	Marker string
+	Cause  error
+}
+
+func (e *UWrapKeyMarker) Error() string          { return e.Cause.Error() }
+func (e *UWrapKeyMarker) Unwrap() error          { return e.Cause }
+func (e *UWrapKeyMarker) ErrorKeyMarker() string { return e.Marker }
+
 // UWrapHinter: unregistered wrapper contributing a hint and a detail
 // through the ErrorHinter / ErrorDetailer interfaces (not in the
 // default kind lists: its annotations cannot survive transfer).
